@@ -370,6 +370,9 @@ fn c42_b_controller_failed_ops_unaltered() {
 
 #[cfg(all(kani, test))]
 mod replay {
+    extern crate std;
+    #[allow(unused_imports)]
+    use std::{vec, vec::Vec};
     use super::*;
     include!(concat!(env!("VERIF_REPLAY_DIR"), "/statime_algo__lib.rs"));
 }
